@@ -105,7 +105,12 @@ def evaluate(part, src, run_kw, sa_kw, labels, fmt="vtl", extra=None):
     nt = nrows >= 1 and ncomp >= 2
     part.case(core.fingerprint([src, run_kw["script"], fmt]), nt, sample=dict(source=src, script=run_kw["script"][:300], results=sorted(res)) if nt and len(part.samples) < 3 else None,
               labels=labels + ["results=%d" % min(len(res), 5)])
+    import re
     for key, what in check_results(res, sa, fmt):
+        if key == "null_in_non_nullable":
+            m = re.search(r"non-nullable \w+ (\w+) is null", what)
+            if m and re.search(r"calc\s+(?:\w+\s+)?%s\s*:=\s*if\b" % re.escape(m.group(1)), run_kw["script"]):
+                key = "null_in_non_nullable:calc_if_then_else"   # the component is computed by an if-then-else (null condition)
         part.fail(key, dict(source=src, script=run_kw["script"], format=fmt, **(extra or {})), what)
 
 
